@@ -1,0 +1,92 @@
+//go:build verif
+
+// Contracts for the verification machinery in /verif (comment-only; never compiled into a binary).
+// Property C18 (ordering half): the compare functions that decide in which order the pods of an overloaded
+// node are considered for eviction (PodSorter: koord priority class, priority, k8s QoS, koord QoS, deletion
+// cost, eviction cost, reversed usage, creation time; ascending) and the node / pod usage scores.
+
+package sorter
+
+//@ spec func sgn(a int, b int) int = a == b ? 0 : (a > b ? 1 : -1)
+
+//@ func cmpBool [C18]
+//@   ensures #three: result == (a == b ? 0 : (a ? -1 : 1))
+//@   modifies nothing
+
+// Reverse(cmp): exact negation of the wrapped compare function's answer for the same pair.
+//@ func Reverse$1 [C18]
+//@   option observers cmp
+//@   assert before call cmp: #samepair: $arg0 == p1 && $arg1 == p2
+//@   assert at return: #negated: calls("cmp") == 1 && result == (lastresult("cmp") > 0 ? -1 : (lastresult("cmp") < 0 ? 1 : 0))
+//@   modifies nothing
+
+//@ func Priority [C18]
+//@   assert before call PodPriority#1: #first: $arg0 == p1
+//@   assert before call PodPriority#2: #second: $arg0 == p2 && priority1 == lastresult("PodPriority")
+//@   assert at return: #three: priority2 == lastresult("PodPriority") && result == (priority1 == priority2 ? 0 : (priority1 > priority2 ? 1 : -1))
+
+//@ func KubernetesQoSClass [C18]
+//@   assert before call GetKubeQosClass#1: #first: $arg0 == p1
+//@   assert before call GetKubeQosClass#2: #second: $arg0 == p2 && qos1 == k8sQoSClassOrder[lastresult("GetKubeQosClass")]
+//@   assert at return: #three: qos2 == k8sQoSClassOrder[lastresult("GetKubeQosClass")] && result == (qos1 == qos2 ? 0 : (qos1 > qos2 ? 1 : -1))
+
+//@ func KoordinatorQoSClass [C18]
+//@   assert before call GetPodQoSClassWithDefault#1: #first: $arg0 == p1
+//@   assert before call GetPodQoSClassWithDefault#2: #second: $arg0 == p2 && qos1 == koordQoSClassOrder[lastresult("GetPodQoSClassWithDefault")]
+//@   assert at return: #three: qos2 == koordQoSClassOrder[lastresult("GetPodQoSClassWithDefault")] && result == (qos1 == qos2 ? 0 : (qos1 > qos2 ? 1 : -1))
+
+//@ func KoordinatorPriorityClass [C18]
+//@   requires extension.rangesOK() && extension.DefaultPriorityClass == extension.PriorityNone   // preconditions of the C13 contract of GetPodPriorityClassWithDefault (package-variable facts)
+//@   assert before call GetPodPriorityClassWithDefault#1: #first: $arg0 == p1
+//@   assert before call GetPodPriorityClassWithDefault#2: #second: $arg0 == p2 && priorityClass1 == koordPriorityClassOrder[lastresult("GetPodPriorityClassWithDefault")]
+//@   assert at return: #three: priorityClass2 == koordPriorityClassOrder[lastresult("GetPodPriorityClassWithDefault")] && result == (priorityClass1 == priorityClass2 ? 0 : (priorityClass1 > priorityClass2 ? 1 : -1))
+
+// Older pods compare greater (are evicted later under the ascending PodSorter).
+//@ func PodCreationTimestamp [C18]
+//@   requires p1 != nil && p2 != nil
+//@   ensures #three: result == (p1.ObjectMeta.CreationTimestamp == p2.ObjectMeta.CreationTimestamp ? 0 : (p1.ObjectMeta.CreationTimestamp < p2.ObjectMeta.CreationTimestamp ? 1 : -1))
+//@   modifies nothing
+
+//@ func PodDeletionCost [C18]
+//@   assert before call GetDeletionCostFromPodAnnotations#1: #first: $arg0 == p1.ObjectMeta.Annotations
+//@   assert before call GetDeletionCostFromPodAnnotations#2: #second: $arg0 == p2.ObjectMeta.Annotations && p1DeletionCost == lastresult("GetDeletionCostFromPodAnnotations", 0)
+//@   assert at return: #three: p2DeletionCost == lastresult("GetDeletionCostFromPodAnnotations", 0) && result == (p1DeletionCost == p2DeletionCost ? 0 : (p1DeletionCost > p2DeletionCost ? 1 : -1))
+
+//@ func EvictionCost [C18]
+//@   assert before call GetEvictionCost#1: #first: $arg0 == p1.ObjectMeta.Annotations
+//@   assert before call GetEvictionCost#2: #second: $arg0 == p2.ObjectMeta.Annotations && p1EvictionCost == lastresult("GetEvictionCost", 0)
+//@   assert at return: #three: p2EvictionCost == lastresult("GetEvictionCost", 0) && result == (p1EvictionCost == p2EvictionCost ? 0 : (p1EvictionCost > p2EvictionCost ? 1 : -1))
+
+// MultiSorter.Less: the answer is decided by the compare function consulted last: negative => i before j
+// exactly when ascending. (The calls
+// ms.cmp[k](p1, p2) go through a slice element: unnamed dynamic calls, earlier answers cannot be named.)
+//@ func (*MultiSorter).Less [C18]
+//@   assert at return: #decides: result == (cmpResult < 0 ? ms.ascending : !ms.ascending)
+
+// The key list of the pod eviction order: six fixed keys, the caller's extra keys in order, creation time
+// last; ascending. (Function values cannot be named in specs - "KoordinatorPriorityClass is not a value" -
+// so the identity of the fixed keys is not stated, only their number.)
+//@ func PodSorter [C18]
+//@   ensures #keys: result != nil && result.ascending && len(result.cmp) == len(cmp) + 7
+//@   ensures #extra: forall j int :: 0 <= j && j < len(cmp) ==> result.cmp[6 + j] == old(cmp[j])
+
+// Usage key: a pod without metrics compares smaller than one with metrics; otherwise the two pods are
+// scored against the exceeded resources. (The three-way result on the scored path cannot be stated:
+// p1Score / p2Score are not yet declared at the first return - "unknown identifier" in `assert at return`.)
+//@ func PodUsage$1 [C18]
+//@   option observers scorer
+//@   assert before call scorer#1: #first: p1Found && p2Found && $arg0 == p1Metric.ResourceList && $arg1 == deref($fv_resourcesThatExceedThresholds)
+//@   assert before call scorer#2: #second: $arg0 == p2Metric.ResourceList && $arg1 == deref($fv_resourcesThatExceedThresholds) && p1Score == lastresult("scorer")
+//@   assert at return: #missing: (!p1Found || !p2Found) ==> result == (p1Found == p2Found ? 0 : (!p1Found ? -1 : 1))
+
+//@ func getResourceValue [C18]
+//@   ensures #unit: result == (resourceName == corev1.ResourceCPU ? quantity.MilliValue() : quantity.Value())
+//@   modifies nothing
+
+//@ func mostRequestedScore [C18]
+//@   ensures #score: result == (capacity == 0 ? 0 : tdiv(min(requested, capacity) * 1000, capacity))
+//@   modifies nothing
+
+//@ func mostRequestedScorePod [C18]
+//@   ensures #score: result == (capacity == 0 ? 0.0 : (real(requested) / real(capacity) >= 1.0 ? real(capacity) / real(requested) + 1.0 : real(requested) / real(capacity)))
+//@   modifies nothing
